@@ -742,6 +742,10 @@ var stdExternals = map[string]externalFn{
 	// vals.typeOf reads the type-descriptor word of an interface (unsafe); any
 	// injective numbering of dynamic types is an equivalent implementation.
 	"src.elv.sh/pkg/eval/vals.typeOf": extValsTypeOf,
+	// eval.scanOptions fills an options struct through reflect (field
+	// addresses); done here on the static struct type, each field converted by
+	// the (intercepted) vals.ScanToGo.
+	"src.elv.sh/pkg/eval.scanOptions": extScanOptions,
 
 	"sort.Slice":       func(fr *frame, args []value) value { return sortSlice(fr, args, false) },
 	"sort.SliceStable": func(fr *frame, args []value) value { return sortSlice(fr, args, true) },
@@ -960,4 +964,53 @@ func extValsTypeOf(fr *frame, args []value) value {
 		}
 	}
 	return id(x.t)
+}
+
+func extScanOptions(fr *frame, args []value) value {
+	raw, _ := args[0].(*omap)
+	ptr, ok := args[1].(iface)
+	if !ok || ptr.t == nil {
+		panic(pathEnd{stUnsupported, "scanOptions with nil pointer"})
+	}
+	pt, ok := ptr.t.Underlying().(*types.Pointer)
+	if !ok {
+		panic(pathEnd{stUnsupported, "scanOptions destination is not a pointer"})
+	}
+	st, ok := pt.Elem().Underlying().(*types.Struct)
+	if !ok {
+		panic(pathEnd{stUnsupported, "scanOptions destination is not a struct"})
+	}
+	cell := ptr.v.(*value)
+	fields := (*cell).(structure)
+	dashed := fr.i.lookupFunc("src.elv.sh/pkg/strutil", "CamelToDashed")
+	keys := map[string]int{}
+	for k := 0; k < st.NumFields(); k++ {
+		f := st.Field(k)
+		if !f.Exported() {
+			panic(pathEnd{stUnsupported, "options struct with unexported field"})
+		}
+		name, _ := callSSA(fr.i, fr, 0, dashed, []value{f.Name()}, nil).(string)
+		keys[name] = k
+	}
+	if raw == nil {
+		return iface{}
+	}
+	scan := fr.i.lookupFunc("src.elv.sh/pkg/eval/vals", "ScanToGo")
+	for _, e := range raw.entries {
+		if e.deleted {
+			continue
+		}
+		key, isStr := e.key.(string)
+		k, known := keys[key]
+		if !isStr || !known {
+			ep := fr.i.prog.ImportedPackage("src.elv.sh/pkg/eval")
+			t := ep.Type("UnknownOption").Object().Type()
+			return iface{t: t, v: structure{e.key}}
+		}
+		dst := iface{t: types.NewPointer(st.Field(k).Type()), v: &fields[k]}
+		if err := callSSA(fr.i, fr, 0, scan, []value{e.val, dst}, nil); err != (iface{}) {
+			return err
+		}
+	}
+	return iface{}
 }
